@@ -19,3 +19,157 @@ Definition rule_protects (n : string) : bool :=
 
 Lemma table_protects : forallb rule_protects protected_names = true.
 Proof. vm_compute. reflexivity. Qed.
+
+Lemma protected_rule : forall n, In n protected_names ->
+  q_modifiable n = Some false /\ q_deletable n = Some false.
+Proof.
+  intros n H. pose proof table_protects as T. rewrite forallb_forall in T. specialize (T n H).
+  unfold rule_protects in T. unfold q_modifiable, q_deletable.
+  destruct (find_rule n); [|discriminate]. simpl.
+  apply andb_true_iff in T. destruct T as [A B]. apply negb_true_iff in A. apply negb_true_iff in B.
+  now rewrite A, B.
+Qed.
+
+(* ------------------------------------------------------------------ which names reach which storage *)
+Lemma mfield_of_name_inv : forall n f, mfield_of_name n = Some f ->
+  (n = "Name" /\ f = FNames) \/ (n = "Object Group" /\ f = FGroups) \/
+  (n = "Application Specific Information" /\ f = FAsi).
+Proof.
+  intros n f. unfold mfield_of_name.
+  destruct (String.eqb_spec n "Name"); [intro H; inversion H; auto|].
+  destruct (String.eqb_spec n "Object Group"); [intro H; inversion H; auto|].
+  destruct (String.eqb_spec n "Application Specific Information"); [intro H; inversion H; auto|].
+  discriminate.
+Qed.
+
+Lemma sfield_of_name_inv : forall n f, sfield_of_name n = Some f ->
+  (f = SSens /\ n = "Sensitive") \/ (f <> SSens /\ In n protected_names).
+Proof.
+  intros n f. unfold sfield_of_name.
+  destruct (String.eqb_spec n "Cryptographic Algorithm"); [intro H; inversion H; subst; right; split; [discriminate | simpl; tauto]|].
+  destruct (String.eqb_spec n "Cryptographic Length"); [intro H; inversion H; subst; right; split; [discriminate | simpl; tauto]|].
+  destruct (String.eqb_spec n "Cryptographic Usage Mask"); [intro H; inversion H; subst; right; split; [discriminate | simpl; tauto]|].
+  destruct (String.eqb_spec n "Operation Policy Name"); [intro H; inversion H; subst; right; split; [discriminate | simpl; tauto]|].
+  destruct (String.eqb_spec n "Sensitive"); [intro H; inversion H; subst; left; auto|].
+  discriminate.
+Qed.
+
+(* ------------------------------------------------------------------ effects the handlers can produce *)
+Definition safe_effect (e : effect) : Prop := match e with ESet f _ => f = SSens | _ => True end.
+
+Ltac bm :=
+  match goal with
+  | H : context [match ?x with _ => _ end] |- _ => let E := fresh "E" in destruct x eqn:E
+  end.
+Ltac inv H := inversion H; subst; clear H.
+
+(* the single-valued setter is only ever entered for a name the table marks modifiable; the table marks none of the
+   protected names modifiable, so the only column it can write is [sensitive] *)
+Lemma set_single_safe : forall o n v e, q_modifiable n = Some true -> set_single o n v = Ok e -> safe_effect e.
+Proof.
+  intros o n v e M H. unfold set_single in H.
+  destruct (q_multivalued n) as [[|]|]; try discriminate.
+  destruct (sfield_of_name n) eqn:S.
+  - apply sfield_of_name_inv in S. destruct S as [[-> ->]|[NS P]].
+    + destruct v; try discriminate. destruct (o_sensitive o); [destruct b; [|discriminate]|]; inv H; simpl; auto.
+    + apply protected_rule in P. destruct P as [P _]. congruence.
+  - destruct v; discriminate.
+Qed.
+
+Lemma set_by_index_safe : forall n v i e, set_by_index n v i = Ok e -> safe_effect e.
+Proof.
+  intros n v i e H. unfold set_by_index in H.
+  repeat (bm; try discriminate); inv H; simpl; auto.
+Qed.
+
+Lemma delete_from_safe : forall o n idx val e, delete_from o n idx val = Ok e -> safe_effect e.
+Proof.
+  intros o n idx val e H. unfold delete_from in H.
+  repeat (bm; try discriminate); inv H; simpl; auto.
+Qed.
+
+Lemma decide_delete_safe : forall v o p e, decide_delete v o p = Ok e -> safe_effect e.
+Proof.
+  intros v o p e H. unfold decide_delete in H. cbv zeta in H.
+  repeat (bm; try discriminate); eauto using delete_from_safe.
+Qed.
+
+Lemma decide_modify_safe : forall v o p e, decide_modify v o p = Ok e -> safe_effect e.
+Proof.
+  intros v o p e H. unfold decide_modify in H. cbv zeta in H.
+  repeat (bm; try discriminate); subst; eauto using set_single_safe, set_by_index_safe.
+Qed.
+
+Lemma decide_set_safe : forall v o p e, decide_set v o p = Ok e -> safe_effect e.
+Proof.
+  intros v o p e H. unfold decide_set in H.
+  repeat (bm; try discriminate); subst; eauto using set_single_safe.
+Qed.
+
+Lemma decide_safe : forall v o r e, decide v o r = Ok e -> safe_effect e.
+Proof.
+  intros v o [p|p|p] e H; simpl in H; eauto using decide_delete_safe, decide_modify_safe, decide_set_safe.
+Qed.
+
+Lemma mset_protected : forall f l o, protected (mset f l o) = protected o.
+Proof. destruct f; reflexivity. Qed.
+
+Lemma apply_safe_protected : forall e o, safe_effect e -> protected (apply_effect e o) = protected o.
+Proof.
+  intros [f i v|f i|f|f v|] o S; simpl; try apply mset_protected; auto.
+  simpl in S. subst f. destruct v; reflexivity.
+Qed.
+
+(* ------------------------------------------------------------------ one step *)
+Lemma find_obj_uid : forall u s o, find_obj u s = Some o -> o_uid o = u.
+Proof.
+  intros u s o H. unfold find_obj in H. apply find_some in H. destruct H as [_ H]. now apply Z.eqb_eq in H.
+Qed.
+
+Lemma replace_obj_protected : forall u o o' s, find_obj u s = Some o -> protected o' = protected o ->
+  map protected (replace_obj u o' s) = map protected s.
+Proof.
+  induction s as [|x t IH]; simpl; intros F P; [reflexivity|].
+  unfold find_obj in F. simpl in F. destruct (o_uid x =? u) eqn:E.
+  - inv F. simpl. now rewrite P.
+  - simpl. f_equal. apply IH; auto.
+Qed.
+
+Theorem step_protected : forall v user s uid r,
+  map protected (fst (step v user s uid r)) = map protected s.
+Proof.
+  intros. unfold step.
+  destruct (is_set r && negb (is_v2 v)); [reflexivity|].
+  destruct uid as [u|]; [|reflexivity].
+  destruct (find_obj u s) as [o|] eqn:F; [|reflexivity].
+  destruct (negb (allowed user o)); [reflexivity|].
+  destruct (decide v o r) as [e|] eqn:D; [|reflexivity].
+  simpl. apply replace_obj_protected with (o := o); auto.
+  apply apply_safe_protected. eapply decide_safe; eauto.
+Qed.
+
+Theorem step_failure_frame : forall v user s uid r e,
+  snd (step v user s uid r) = Failed e -> fst (step v user s uid r) = s.
+Proof.
+  intros v user s uid r e. unfold step.
+  destruct (is_set r && negb (is_v2 v)); [reflexivity|].
+  destruct uid as [u|]; [|reflexivity].
+  destruct (find_obj u s) as [o|]; [|reflexivity].
+  destruct (negb (allowed user o)); [reflexivity|].
+  destruct (decide v o r); [simpl; discriminate | reflexivity].
+Qed.
+
+(* a successful step: the object found by identifier, accessible to the caller, receives exactly one effect *)
+Lemma step_success_inv : forall v user s uid r,
+  snd (step v user s uid r) = Success ->
+  exists u o e, uid = Some u /\ find_obj u s = Some o /\ allowed user o = true /\ decide v o r = Ok e /\
+                fst (step v user s uid r) = replace_obj u (apply_effect e o) s.
+Proof.
+  intros v user s uid r. unfold step.
+  destruct (is_set r && negb (is_v2 v)); [simpl; discriminate|].
+  destruct uid as [u|]; [|simpl; discriminate].
+  destruct (find_obj u s) as [o|] eqn:F; [|simpl; discriminate].
+  destruct (negb (allowed user o)) eqn:A; [simpl; discriminate|].
+  destruct (decide v o r) as [e|] eqn:D; [|simpl; discriminate].
+  intros _. exists u, o, e. simpl. apply negb_false_iff in A. auto.
+Qed.
